@@ -4,7 +4,14 @@ Tie: (a) trace acceptance - the run-function logs Start(job, resources received)
 `replay_obs` + `final_ok` (C17_Queue/Check.v) accepts the log iff every start receives exactly queue_pop_per_task resources
 that are free at that moment, the 'dequed' metadata names them, every job ends and every resource is back in the queue;
 (b) correspondence with the mechanism model `qstep` (exact FIFO prediction of which resources each job gets) on the serial
-backend, where the completion order is forced by a conductor.
+backend, where the completion order is forced by a conductor; the deque at the end of the run is compared with the predicted one
+(order included) and must hold every resource again;
+(c) step-wise refinement of the extended mechanism `xstep` (group semaphore, waves, run-functions that raise, close(), thread
+pool and zombies): the harness drives the evaluator operation by operation (submit k / let job j return / let job j raise /
+close() / let the thread of a cancelled job return) and after EVERY operation compares deque (exact order), which jobs have
+started with which resources, which have ended and how, with the state of the model after the same operation (`xdrive`);
+on the thread backend the pool's choice of the queued job it starts next is an input of the model (DStart);
+(d) the constructor: queue_pop_per_task outside 1..len(queue) must be rejected (`xnew`).
 """
 import asyncio
 import threading
@@ -16,14 +23,26 @@ from ..runner import Stream
 PROPERTY = "C17"
 LEVEL = "proof"
 TRUSTED = [
-    "asyncio scheduling and the thread pool: observed, not modelled (the theorems hold for every schedule of the mechanism model)",
+    "asyncio scheduling and the thread pool: observed, not modelled (the theorems hold for every schedule of the mechanism models)",
     "the run-function's own log of (start, resources) / (end) events is the observation; its order is the order of the log appends",
+    "step-wise streams: 60 iterations of the event loop after each operation are taken to be enough for asyncio to do everything it can "
+    "(the model state compared is the quiescent one, C17_settle_quiescent); on the thread backend WHICH queued job the pool starts next "
+    "is read off the log and given to the model as an input (DStart), only its admissibility (a free pool thread) is the model's",
+    "step-wise streams: a task whose run-function raised is taken out of Evaluator._tasks_running by the driver (the base class keeps "
+    "it there for ever and re-raises at every gather/close - not the queue's concern)",
 ]
-ASSUMPTIONS = ["queue_pop_per_task <= len(queue)", "resources are distinct tokens", "run-functions return (do not raise)"]
-RULE = ("queue 1..6 x pop {1,2} x workers 1..3 x 1..8 jobs in 1..3 waves x random completion orders (serial: forced by a conductor; "
-        "thread: random sleeps); non-trivial = more jobs than free resource groups or than workers (some job has to wait)")
+ASSUMPTIONS = ["resources are distinct tokens", "asyncio semaphores wake their waiters in FIFO order (step-wise streams, exact prediction)",
+               "run-functions end promptly when cancelled (serial backend; the order in which close() returns resources depends on it)"]
+RULE = ("serial_conducted / thread_random: queue 1..6 x pop {1,2} x workers 1..3 x 1..8 jobs in 1..3 waves x random completion orders "
+        "(serial: forced by a conductor; thread: random sleeps); non-trivial = more jobs than free resource groups or than workers. "
+        "serial_steps / thread_steps: queue 1..6 x pop 1..3 (also not dividing the queue) x workers 1..3 x 2..9 operations among submit k / "
+        "return / raise / close(), every run-function released by the driver; all pops from -1 to len(queue)+2 for the constructor; "
+        "non-trivial = contention, a failure or a close()")
 CLAUSE = {1: "wrong_resource_count", 2: "resource_not_free", 3: "start_end_order", 4: "metadata", 5: "job_never_ran", 6: "resource_lost"}
 F_REPLAY = 1701
+F_XREPLAY = 1702
+F_MECHQ = 1703
+F_CONSERVED = 1704
 
 
 def _ids(jobs):
@@ -59,7 +78,7 @@ def run_case(case):
         ev = queued(SerialEvaluator)(run_async, num_workers=case["workers"], queue=q0, queue_pop_per_task=case["pop"])
     else:
         ev = queued(ThreadPoolEvaluator)(run_sync, num_workers=case["workers"], queue=q0, queue_pop_per_task=case["pop"])
-    meta, njobs, error = [], 0, None
+    meta, njobs, error, fq = [], 0, None, None
     conductors = []
     try:
         for w, wave in enumerate(case["waves"]):
@@ -85,6 +104,7 @@ def run_case(case):
             for job in res:
                 d = job.metadata.get("dequed", "")
                 meta.append([int(job.id.split(".")[1]), [int(x) for x in d.split(",") if x != ""]])
+        fq = [int(x) for x in ev.queue]
     except Exception as e:
         error = "%s: %s" % (type(e).__name__, e)
     finally:
@@ -97,11 +117,11 @@ def run_case(case):
         ex = getattr(ev, "executor", None)
         if ex is not None:
             ex.shutdown(wait=False, cancel_futures=True)
-    return q0, njobs, log, meta, error
+    return q0, njobs, log, meta, error, fq
 
 
 def check(case):
-    q0, njobs, log, meta, error = run_case(case)
+    q0, njobs, log, meta, error, fq = run_case(case)
     groups = case["queue"] // case["pop"]
     nt = njobs > groups or njobs > case["workers"]
     res = dict(ok=True, kind="oracle", clause="", nontrivial=nt, sig={"backend": case.get("backend", "serial")},
@@ -118,6 +138,11 @@ def check(case):
         return dict(res, ok=False, clause=CLAUSE.get(fin, str(fin)), detail=dict(log=log, meta=meta))
     if case.get("backend", "serial") == "serial" and not mech:
         return dict(res, ok=False, kind="corr", clause="mechanism_fifo", detail=dict(log=log))
+    defined, pq, back = model().call(F_MECHQ, [case["pop"], q0, njobs, log, fq])
+    if not back:
+        return dict(res, ok=False, clause=CLAUSE[6], detail=dict(final_deque=fq, q0=q0, log=log))
+    if case.get("backend", "serial") == "serial" and (not defined or pq != fq):
+        return dict(res, ok=False, kind="corr", clause="final_deque_order", detail=dict(final_deque=fq, predicted=pq, log=log))
     return res
 
 
@@ -163,9 +188,372 @@ def shrink(case):
         yield dict(case, pop=1)
 
 
+# ---------------------------------------------------------------------------------------------------------------------
+# (c) step-wise refinement of the extended mechanism; (d) the constructor
+# ---------------------------------------------------------------------------------------------------------------------
+OP_SUBMIT, OP_FINISH, OP_FAIL, OP_CLOSE, OP_ZOMBIE_END, OP_START = 0, 1, 2, 3, 4, 5
+PH = {0: "pending", 1: "pending", 2: "running", 3: "done", 4: "failed", 5: "cancelled", 6: "zombie", 7: "pending"}
+WAIT_S = 10.0  # upper bound for a thread to show up; reaching it is a finding (job_never_started), never a pass
+
+
+class Boom(Exception):
+    pass
+
+
+class Stepper:
+    """Drives one Queued evaluator operation by operation and records what can be seen from outside."""
+
+    def __init__(self, case):
+        from deephyper.evaluator import SerialEvaluator, ThreadPoolEvaluator, queued
+
+        self.case = case
+        self.thread = case["backend"] == "thread"
+        self.q0 = list(range(100, 100 + case["queue"]))
+        self.log, self.events, self.fail, self.tasks = [], {}, set(), {}
+        self.cv = threading.Condition()
+        self.njobs = 0
+        self.ops = []  # concrete operations, as given to the model
+        if self.thread:
+            self.ev = queued(ThreadPoolEvaluator)(self.run_sync, num_workers=case["workers"], queue=self.q0, queue_pop_per_task=case["pop"])
+        else:
+            self.ev = queued(SerialEvaluator)(self.run_async, num_workers=case["workers"], queue=self.q0, queue_pop_per_task=case["pop"])
+        if case.get("timeout"):
+            # an evaluator-wide time budget that is over at once: every job is marked CANCELLED when it reaches the deadline,
+            # but its run-function is awaited all the same - the resources must stay with the job until it really ends
+            self.ev.timeout = 0.001
+
+    # ---- run-functions -------------------------------------------------------------------------------------------
+    async def run_async(self, job, dequed=None):
+        jid = int(job.id.split(".")[1])
+        self.log.append([0, jid, [int(x) for x in dequed]])
+        e = self.events.setdefault(jid, asyncio.Event())
+        try:
+            await e.wait()
+            if jid in self.fail:
+                raise Boom(jid)
+            return jid
+        finally:
+            self.log.append([1, jid])
+
+    def run_sync(self, job, dequed=None):
+        jid = int(job.id.split(".")[1])
+        with self.cv:
+            self.log.append([0, jid, [int(x) for x in dequed]])
+            e = self.events.setdefault(jid, threading.Event())
+            self.cv.notify_all()
+        try:
+            e.wait(3 * WAIT_S)
+            if jid in self.fail:
+                raise Boom(jid)
+            return jid
+        finally:
+            with self.cv:
+                self.log.append([1, jid])
+                self.cv.notify_all()
+
+    # ---- what is visible -----------------------------------------------------------------------------------------
+    def started(self):
+        return {e[1]: e[2] for e in self.log if e[0] == 0}
+
+    def ended(self):
+        return {e[1] for e in self.log if e[0] == 1}
+
+    def executing(self):
+        with self.cv:
+            return sorted(set(self.started()) - self.ended())
+
+    def snapshot(self):
+        with self.cv:
+            st, en = self.started(), self.ended()
+        jobs = []
+        for j in range(self.njobs):
+            t = self.tasks[j]
+            if j not in st:
+                ph = "cancelled" if t.cancelled() else ("pending" if not t.done() else "ended_without_start")
+            elif j not in en:
+                ph = "zombie" if t.done() else "running"
+            elif not t.done():
+                ph = "ending"
+            elif t.cancelled():
+                ph = "cancelled"
+            else:
+                ph = "failed" if t.exception() is not None else "done"
+            jobs.append([ph, st.get(j)])
+        return dict(deque=[int(x) for x in self.ev.queue], jobs=jobs)
+
+    # ---- letting the event loop (and the threads) do what they can -------------------------------------------------
+    def ticks(self, n=60):
+        loop = self.ev.loop
+        if loop is None or loop.is_closed():
+            return
+
+        async def _t():
+            for _ in range(n):
+                await asyncio.sleep(0)
+
+        loop.run_until_complete(_t())
+
+    def model_states(self):
+        c = self.case
+        return model().call(F_XREPLAY, [c["pop"], c["workers"], self.thread, self.q0, self.ops, [], [], []])[1]
+
+    def settle(self):
+        self.ticks()
+        if not self.thread:
+            return None
+        # thread backend: the pool starts queued run-functions while it has free threads; WHICH ones is its choice and is
+        # given to the model as an input (DStart j), in the order in which the run-functions were seen to start
+        ms = self.model_states()[-1]
+        phases = [ph for ph, _r in ms[1]]
+        expect = min(self.case["workers"], phases.count(2) + phases.count(6) + phases.count(7))
+        with self.cv:
+            ok = self.cv.wait_for(lambda: len(set(self.started()) - self.ended()) >= expect, timeout=WAIT_S)
+            order = [e[1] for e in self.log if e[0] == 0]
+        for j in order:
+            if j < len(phases) and phases[j] == 7:
+                self.ops.append([OP_START, j])
+        self.ticks()
+        return None if ok else "job_never_started"
+
+    # ---- operations ------------------------------------------------------------------------------------------------
+    def submit(self, k):
+        self.ev.submit([{"x": self.njobs + i} for i in range(k)])
+        for i, t in enumerate(self.ev._tasks_running[-k:] if k else []):
+            self.tasks[self.njobs + i] = t
+        self.njobs += k
+        self.ops.append([OP_SUBMIT, k])
+        return self.settle()
+
+    def release(self, j, fail):
+        if fail:
+            self.fail.add(j)
+        t = self.tasks[j]
+        zombie = t.done()
+        self.ops.append([OP_ZOMBIE_END if zombie else (OP_FAIL if fail else OP_FINISH), j])
+        if self.thread:
+            with self.cv:
+                self.events[j].set()
+                ok = self.cv.wait_for(lambda: j in self.ended(), timeout=WAIT_S)
+            if not ok:
+                return "job_never_ended"
+            if not zombie:
+                self.ev.loop.run_until_complete(asyncio.wait([t]))
+        else:
+            self.events[j].set()
+        r = self.settle()
+        if fail and not zombie:
+            # a job whose run-function raised stays in _tasks_running for ever and every later gather()/close() raises its
+            # exception again (base Evaluator, not the queue): the driver takes it out, as a caller that caught the error would
+            if t in self.ev._tasks_running:
+                self.ev._tasks_running.remove(t)
+        return r
+
+    def close(self):
+        self.ops.append([OP_CLOSE, 0])
+        self.ev.close()
+        return self.settle()
+
+    def finish_everything(self):
+        for _ in range(3 * self.njobs + 3):
+            ex = self.executing()
+            if not ex:
+                break
+            r = self.release(ex[0], False)
+            if r:
+                return r
+        return None
+
+    def shutdown(self):
+        for e in list(self.events.values()):
+            e.set()
+        try:
+            self.ev.close()
+        except Exception:
+            pass
+        ex = getattr(self.ev, "executor", None)
+        if ex is not None:
+            ex.shutdown(wait=False, cancel_futures=True)
+
+
+def _compare(c, st, sn):
+    """After an operation: (oracle) when no job is between submitted and started, deque + resources in use = the initial
+    collection; (correspondence) the implementation is in the state of the model after the same operations."""
+    phs = [j[0] for j in sn["jobs"]]
+    if "pending" not in phs and "ending" not in phs:
+        held = [j[1] for j in sn["jobs"] if j[0] == "running"]
+        if not model().call(F_CONSERVED, [st.q0, sn["deque"], held])[0]:
+            return dict(kind="oracle", clause=CLAUSE[6], detail=dict(deque=sn["deque"], in_use=held, q0=st.q0, jobs=sn["jobs"]))
+    states = st.model_states()
+    if not states:
+        return None
+    mq, mjobs, merr, _mm = states[-1]
+    mj = []
+    for j, (ph, r) in enumerate(mjobs):
+        seen = j < len(sn["jobs"]) and sn["jobs"][j][1] is not None
+        mj.append([PH[ph], r if ph in (2, 3, 4, 6) or (ph == 5 and seen) else None])
+    if merr or sn["deque"] != mq or sn["jobs"] != mj:
+        return dict(kind="corr", clause="state_after_op",
+                    detail=dict(op_index=len(st.ops) - 1, op=st.ops[-1], implementation=sn, model=dict(deque=mq, jobs=mj, err=merr)))
+    return None
+
+
+def steps_check(case):
+    c = case
+    sig = {"backend": c["backend"]}
+    res = dict(ok=True, kind="oracle", clause="", nontrivial=False, sig=sig, desc=[])
+    valid = model().call(F_XREPLAY, [c["pop"], c["workers"], False, list(range(c["queue"])), [], [], [], []])[0]
+    st = None
+    snaps, err = [], None
+    try:
+        try:
+            st = Stepper(c)
+        except ValueError:
+            if valid:
+                return dict(res, ok=False, clause="valid_pop_rejected", sig=dict(sig, clause="valid_pop_rejected"), detail=dict(case=c))
+            return dict(res, nontrivial=True, desc=["constructor=rejects", "pop_vs_queue=%s" % ("zero" if c["pop"] < 1 else "too_large")])
+        if not valid:
+            # the pinned constructor: show what happens next (model: no job ever receives a resource, C17_unvalidated_pop_starves_refuted)
+            what = "accepted"
+            try:
+                st.submit(2)
+                st.ticks()
+                sn = st.snapshot()
+                what = "accepted; 2 jobs submitted, after 120 loop iterations: %s, deque %s" % ([j[0] for j in sn["jobs"]], sn["deque"])
+            except Exception as e:  # noqa: BLE001
+                what = "accepted; then %s: %s" % (type(e).__name__, e)
+            return dict(res, ok=False, clause="invalid_pop_accepted", sig=dict(sig, clause="invalid_pop_accepted"),
+                        detail=dict(queue=c["queue"], pop=c["pop"], implementation=what))
+        after_close = False
+        bad = None
+        for op in c["ops"]:
+            kind, arg = op[0], op[1]
+            if kind == "submit":
+                err = st.submit(arg)
+            elif kind in ("finish", "fail"):
+                ex = st.executing()
+                if not ex:
+                    continue
+                err = st.release(ex[arg % len(ex)], kind == "fail")
+            elif kind == "close":
+                err = st.close()
+                after_close = True
+            snaps.append((len(st.ops) - 1, st.snapshot()))
+            bad = err or _compare(c, st, snaps[-1][1])
+            if bad:
+                break
+        if not bad:
+            bad = st.finish_everything()
+            # the remaining jobs are collected the ordinary way
+            if not bad and st.ev._tasks_running:
+                st.ev.gather("ALL")
+                st.ticks()
+            snaps.append((len(st.ops) - 1, st.snapshot()))
+            bad = bad or _compare(c, st, snaps[-1][1])
+        meta = []
+        for job in st.ev.jobs:
+            if "dequed" in job.metadata:
+                meta.append([int(job.id.split(".")[1]), [int(x) for x in job.metadata["dequed"].split(",") if x != ""]])
+        fq = [int(x) for x in st.ev.queue]
+        log, ops, njobs = list(st.log), list(st.ops), st.njobs
+    except Exception as e:  # noqa: BLE001
+        kind = type(e).__name__
+        return dict(res, ok=False, clause="exception:" + kind, sig=dict(sig, clause="exception:" + kind, exc=kind),
+                    detail=dict(error="%s: %s" % (kind, e), ops=st.ops if st else None, log=st.log if st else None))
+    finally:
+        if st is not None:
+            st.shutdown()
+    kinds = sorted({o[0] for o in c["ops"]})
+    res["nontrivial"] = njobs > min(c["queue"] // c["pop"], c["workers"]) or "close" in kinds or "fail" in kinds
+    res["desc"] = ["queue=%d" % c["queue"], "pop=%d" % c["pop"], "workers=%d" % c["workers"], "jobs=%d" % min(njobs, 9),
+                   "divides=%s" % (c["queue"] % c["pop"] == 0)] + ["op=" + k for k in kinds] + \
+                  ["waves=%d" % min(3, sum(1 for o in c["ops"] if o[0] == "submit"))] + (["timeout_set"] if c.get("timeout") else []) + (["pool_start"] if any(o[0] == OP_START for o in ops) else [])
+    sig = dict(sig, after_close=after_close)
+    if isinstance(bad, str):
+        return dict(res, ok=False, clause=bad, sig=dict(sig, clause=bad), detail=dict(ops=ops, log=log, snapshots=[sn for _i, sn in snaps]))
+    _v, states, acc, idx, clause, fin = model().call(F_XREPLAY, [c["pop"], c["workers"], c["backend"] == "thread", st.q0, ops, log, meta, fq])
+    # the property, judged by the extracted oracle on what the run-functions saw
+    if not acc:
+        cl = CLAUSE.get(clause, str(clause))
+        return dict(res, ok=False, clause=cl, sig=dict(sig, clause=cl), detail=dict(rejected_event=idx, event=log[idx], ops=ops, log=log, meta=meta))
+    if bad:
+        # a resource is neither in the deque nor in use (oracle), or the implementation left the states of the model (corr)
+        return dict(res, ok=False, kind=bad["kind"], clause=bad["clause"], sig=dict(sig, clause=bad["clause"]), detail=dict(bad["detail"], ops=ops, log=log))
+    if fin != 0:
+        cl = CLAUSE.get(fin, str(fin))
+        return dict(res, ok=False, clause=cl, sig=dict(sig, clause=cl), detail=dict(ops=ops, log=log, meta=meta, final_deque=fq))
+    mm = sorted(states[-1][3]) if states else []
+    if sorted(meta) != mm:
+        return dict(res, ok=False, kind="corr", clause="metadata_vs_model", sig=dict(sig, clause="metadata_vs_model"), detail=dict(meta=meta, model=mm, ops=ops))
+    return res
+
+
+def steps_gen(count, backend):
+    def g(rng, tier):
+        if backend == "serial":
+            # constructor: every pop from -1 to len(queue)+2 for small queues
+            for q in (1, 2, 3):
+                for p in range(-1, q + 3):
+                    yield dict(backend=backend, queue=q, pop=p, workers=1, ops=[["submit", 1], ["finish", 0]])
+            # smallest instances of each phenomenon
+            yield dict(backend=backend, queue=5, pop=2, workers=2, ops=[["submit", 4], ["fail", 0], ["close", 0], ["submit", 2], ["finish", 0]])
+            yield dict(backend=backend, queue=2, pop=1, workers=1, ops=[["submit", 1], ["submit", 1]])  # F21: two jobs run with one worker
+            yield dict(backend=backend, queue=2, pop=1, workers=1, timeout=True, ops=[["submit", 3], ["finish", 0], ["fail", 0]])  # deadline passed while holding
+            yield dict(backend=backend, queue=6, pop=2, workers=1, ops=[["submit", 3], ["close", 0], ["submit", 3]])  # order in which close() returns
+        else:
+            yield dict(backend=backend, queue=1, pop=1, workers=2, ops=[["submit", 1], ["close", 0], ["submit", 1]])  # zombie + new job (F52)
+            yield dict(backend=backend, queue=2, pop=1, workers=3, ops=[["submit", 1], ["close", 0], ["submit", 2]])
+            yield dict(backend=backend, queue=3, pop=2, workers=1, ops=[["submit", 3], ["fail", 0], ["finish", 0]])
+            yield dict(backend=backend, queue=2, pop=1, workers=1, ops=[["submit", 1], ["submit", 1], ["finish", 0]])  # the pool serialises the two submits
+            yield dict(backend=backend, queue=2, pop=1, workers=1, ops=[["submit", 1], ["close", 0], ["submit", 1], ["close", 0], ["submit", 1]])
+        n = count * (3 if tier == "search" else 1)
+        for _ in range(n):
+            pop = rng.choice([1, 1, 2, 2, 3])
+            queue = rng.randint(pop, 6)
+            ops, total = [], 0
+            for _k in range(rng.randint(2, 9)):
+                r = rng.random()
+                if (not ops or r < 0.3) and total < 8:
+                    k = rng.randint(1, min(4, 8 - total))
+                    total += k
+                    ops.append(["submit", k])
+                elif r < 0.65:
+                    ops.append(["finish", rng.randint(0, 5)])
+                elif r < 0.8:
+                    ops.append(["fail", rng.randint(0, 5)])
+                elif r < 0.9:
+                    ops.append(["close", 0])
+                else:
+                    ops.append(["finish", rng.randint(0, 5)])
+            c = dict(backend=backend, queue=queue, pop=pop, workers=rng.randint(1, 3), ops=ops)
+            if ["close", 0] not in ops and rng.random() < 0.3:
+                c["timeout"] = True  # (with close() the shielded run-function of the serial backend is abandoned, never ends)
+            yield c
+    return g
+
+
+def steps_shrink(case):
+    if case.get("timeout"):
+        yield {k: v for k, v in case.items() if k != "timeout"}
+    ops = case["ops"]
+    for i in range(len(ops)):
+        yield dict(case, ops=ops[:i] + ops[i + 1:])
+        if ops[i][0] == "submit" and ops[i][1] > 1:
+            yield dict(case, ops=ops[:i] + [["submit", ops[i][1] - 1]] + ops[i + 1:])
+        if ops[i][0] == "fail":
+            yield dict(case, ops=ops[:i] + [["finish", ops[i][1]]] + ops[i + 1:])
+    if case["queue"] > max(1, case["pop"]):
+        yield dict(case, queue=case["queue"] - 1)
+    if case["workers"] > 1:
+        yield dict(case, workers=case["workers"] - 1)
+    if case["pop"] > 1 and case["pop"] <= case["queue"]:
+        yield dict(case, pop=case["pop"] - 1)
+
+
 def streams(tier):
     th = tier == "thorough"
     return [
         Stream("serial_conducted", gen(3000 if th else 400, "serial"), check, shrink, timeout=20),
         Stream("thread_random", gen(400 if th else 60, "thread"), check, shrink, timeout=30),
+        Stream("serial_steps", steps_gen(3000 if th else 300, "serial"), steps_check, steps_shrink, timeout=20),
+        Stream("thread_steps", steps_gen(500 if th else 60, "thread"), steps_check, steps_shrink, timeout=60),
     ]
